@@ -1,20 +1,35 @@
 (* PyMini -- abstract syntax and reference semantics of the small, loop-free subset of
-   Python in which the pure arithmetic helpers of curtsies are written
-   (normalize_slice, interval_overlap, could_be_unfinished_utf8).
+   Python in which the pure helpers of curtsies are written
+   (formatstring.normalize_slice, formatstring.interval_overlap, and the decision cascade of
+   key decoding: events.get_key, _key_name, decodable, could_be_unfinished_char,
+   could_be_unfinished_utf8).
 
    The translator gen/gen_pure.py dumps the Python AST of those functions, node by
    node, into terms of [stmt] (Gen/Pure.v, regenerated from /repo on every run): it makes
-   no decision about meaning.  The meaning is here: [exec_block] is the reference
-   interpreter.  Proofs/PureTie.v proves, for ALL arguments, that running the generated
-   syntax tree gives what the hand-written models (Model/Slice.v, Model/Width.v,
-   Model/Keys.v) compute, so the theorems about those models are theorems about the
-   function text that is in the repository now; the correspondence check additionally runs
-   this interpreter against CPython on generated arguments.
+   no decision about meaning.  The meaning is here: [exec_block] / [call_in] is the reference
+   interpreter.  Proofs/PureTie.v and Proofs/PureTieKeys.v prove, for ALL arguments, that
+   running the generated syntax tree gives what the hand-written models (Model/Slice.v,
+   Model/Width.v, Model/Keys.v) compute, so the theorems about those models are theorems
+   about the function text that is in the repository now; the correspondence check
+   additionally runs this interpreter against CPython on generated arguments.
 
-   Values: int (unbounded), bool, None, slice objects, bytes.  Everything the subset
-   cannot express is an explicit error outcome ([Raise]), never a default value.
+   Values: int (unbounded), bool, None, slice objects, bytes, str (code points), lists,
+   dicts / sets (module-level tables), enum classes and members, modules, opaque objects
+   with an identity (what `is` compares), generator objects.
+   Everything the subset cannot express is an explicit error outcome ([Raise]), never a
+   default value; where Python WOULD define a behaviour that is not modelled here the
+   outcome is [Raise OtherError] (never a Python exception the real code could raise), so
+   that a tie theorem can not be proved about behaviour the interpreter only guesses.
+
+   Outside the language itself, a function is run in a context [ctx]:
+     c_globals  the module-level names it may read (tables, constants, enum classes, modules),
+     c_funs     the module-level functions it may call, each given by its semantics
+                [list val -> res val] (another generated function run by this interpreter, or
+                a model function standing for library behaviour),
+     c_method   the meaning of method calls that are library behaviour (bytes.decode,
+                codecs.getdecoder): the ORACLES, named and instantiated in Spec/PyEnv.v.
    No proofs in this file. *)
-From Coq Require Import String.
+From Coq Require Import String Ascii.
 From Curtsies Require Import Model.Base.
 Local Open Scope Z_scope.
 
@@ -23,37 +38,56 @@ Inductive val :=
 | VBool (b : bool)
 | VNone
 | VSlice (start stop step : val)
-| VBytes (l : list N).
+| VBytes (l : list N)
+| VStr (l : list N)                              (* code points *)
+| VList (l : list val)
+| VDict (items : list (val * val))               (* items in insertion order, keys pairwise distinct *)
+| VSet (l : list val)
+| VEnumClass (cls : string) (members : list string)
+| VEnum (cls member : string)
+| VModule (name : string)
+| VObj (tag : string) (id : N)                   (* an object of which only the identity is known *)
+| VGen (items : list (res val)).                 (* generator object: the outcomes of its elements, in order *)
 
-Inductive binop := BAdd | BSub | BMul | BBitAnd | BBitOr.
-Inductive cmpop := CLt | CLtE | CGt | CGtE | CEq | CNotEq | CIs | CIsNot.
+Inductive binop := BAdd | BSub | BMul | BBitAnd | BBitOr | BMod.
+Inductive cmpop := CLt | CLtE | CGt | CGtE | CEq | CNotEq | CIs | CIsNot | CIn | CNotIn.
 
 Inductive expr :=
 | EVar (x : string)
 | EInt (z : Z)
 | EBoolC (b : bool)
 | ENoneC
+| EStr (l : list N)                        (* str constant (code points) *)
+| EBytes (l : list N)                      (* bytes constant *)
 | EBin (op : binop) (a b : expr)
 | ENeg (a : expr)
 | ENot (a : expr)
 | ECmp (op : cmpop) (a b : expr)          (* one comparison; chains are refused by the translator *)
 | EAnd (a b : expr)                        (* a and b : value of a if falsy, else value of b *)
 | EOr (a b : expr)
-| EAttr (a : expr) (name : string)         (* .start .stop .step of a slice object *)
-| ECall1 (f : string) (a : expr)           (* len, ord, abs, bool, int *)
-| ECall2 (f : string) (a b : expr)         (* max, min, isinstance(x, int|slice) *)
-| ECall3 (f : string) (a b c : expr)       (* slice(a, b, c) *)
-| ESub (a : expr) (lo hi : option expr).   (* a[lo:hi] on bytes *)
+| EAttr (a : expr) (name : string)         (* .start .stop .step of a slice object; Enum.MEMBER *)
+| ECall1 (f : string) (a : expr)           (* f(a): builtins len, ord, abs, bool, int, all, any; module functions *)
+| ECall2 (f : string) (a b : expr)         (* max, min, slice, isinstance(x, <class name>); module functions *)
+| ECall3 (f : string) (a b c : expr)       (* slice(a, b, c); module functions *)
+| ESub (a : expr) (lo hi : option expr)    (* a[lo:hi] on bytes *)
+| EIndex (a i : expr)                      (* a[i] *)
+| EMeth1 (a : expr) (name : string) (arg : expr)   (* a.name(arg) *)
+| EGenExp (elt : expr) (x : string) (it : expr).   (* (elt for x in it) *)
 
 Inductive stmt :=
 | SAssign (x : string) (e : expr)
 | SAugAssign (x : string) (op : binop) (e : expr)
-| SIf (c : expr) (th el : list stmt)
+| SIf (c : expr) (th el : list stmt)      (* elif = an SIf alone in [el] *)
 | SReturn (e : expr)
-| SRaise (e : exn)
-| SPass.                                    (* docstrings and `pass` *)
+| SRaise (e : exn)                         (* raise X / raise X(msg): exceptions are identified by class only *)
+| SPass                                    (* docstrings and `pass` *)
+| SExpr (e : expr)                         (* expression statement *)
+| SAssert (c : expr)                       (* assert c [, "constant message"] *)
+| STry (body : list stmt) (ex : exn) (handler orelse : list stmt).
+                                           (* try: body  except ex: handler  else: orelse   (one handler, no finally) *)
 
-Record fundef := mkFun { f_params : list string; f_body : list stmt }.
+(* parameters; [f_defaults] are the default-value expressions of the LAST parameters *)
+Record fundef := mkFun { f_params : list string; f_defaults : list expr; f_body : list stmt }.
 
 (* ---- environments ---------------------------------------------------------- *)
 Definition env := list (string * val).
@@ -66,6 +100,29 @@ Fixpoint lookup (x : string) (r : env) : option val :=
 
 Definition bind_var (x : string) (v : val) (r : env) : env := (x, v) :: r.
 
+Definition funs := list (string * (list val -> res val)).
+
+Fixpoint lookup_fun (x : string) (fs : funs) : option (list val -> res val) :=
+  match fs with
+  | [] => None
+  | (y, g) :: fs' => if String.eqb x y then Some g else lookup_fun x fs'
+  end.
+
+Record ctx := mkCtx {
+  c_globals : env;
+  c_funs : funs;
+  c_method : val -> string -> val -> res val
+}.
+
+Definition empty_ctx : ctx := mkCtx [] [] (fun _ _ _ => Raise OtherError).
+
+(* code points of a Coq string literal (ASCII) *)
+Fixpoint codes (s : string) : list N :=
+  match s with
+  | EmptyString => []
+  | String a s' => N_of_ascii a :: codes s'
+  end.
+
 (* ---- values ---------------------------------------------------------------------- *)
 (* bool is a subclass of int: True == 1 *)
 Definition as_int (v : val) : option Z :=
@@ -75,20 +132,37 @@ Definition as_int (v : val) : option Z :=
   | _ => None
   end.
 
+Definition is_nil {X} (l : list X) : bool := match l with [] => true | _ => false end.
+
 Definition truthy (v : val) : bool :=
   match v with
   | VInt z => negb (z =? 0)
   | VBool b => b
   | VNone => false
-  | VSlice _ _ _ => true
-  | VBytes l => match l with [] => false | _ => true end
+  | VBytes l | VStr l => negb (is_nil l)
+  | VList l | VSet l => negb (is_nil l)
+  | VDict l => negb (is_nil l)
+  | VSlice _ _ _ | VEnumClass _ _ | VEnum _ _ | VModule _ | VObj _ _ | VGen _ => true
   end.
 
+(* structural equality of values.  It is Python's == on the scalar values (int/bool, None,
+   bytes, str, slice, enum members, opaque objects) and on lists of them; it is NOT ==
+   on dicts, sets, generators (always false here): [eval_cmp] refuses == on those. *)
 Fixpoint val_eqb (a b : val) : bool :=
   match a, b with
   | VNone, VNone => true
   | VSlice a1 a2 a3, VSlice b1 b2 b3 => val_eqb a1 b1 && val_eqb a2 b2 && val_eqb a3 b3
   | VBytes x, VBytes y => list_eqb N.eqb x y
+  | VStr x, VStr y => list_eqb N.eqb x y
+  | VEnum c m, VEnum c' m' => String.eqb c c' && String.eqb m m'
+  | VObj t i, VObj t' i' => String.eqb t t' && N.eqb i i'
+  | VList x, VList y =>
+      (fix go (x y : list val) : bool :=
+         match x, y with
+         | [], [] => true
+         | u :: x', w :: y' => val_eqb u w && go x' y'
+         | _, _ => false
+         end) x y
   | _, _ =>
       match as_int a, as_int b with
       | Some x, Some y => x =? y
@@ -96,9 +170,90 @@ Fixpoint val_eqb (a b : val) : bool :=
       end
   end.
 
-(* `is` is only used against None in the subset; the translator refuses anything else *)
+(* values on which == is the structural equality above *)
+Definition comparable (v : val) : bool :=
+  match v with
+  | VDict _ | VSet _ | VGen _ | VModule _ | VEnumClass _ _ => false
+  | _ => true
+  end.
+
+Definition hashable (v : val) : bool :=
+  match v with
+  | VList _ | VDict _ | VSet _ => false
+  | VGen _ | VModule _ | VEnumClass _ _ => false      (* hashable in Python, by identity: not modelled *)
+  | _ => true
+  end.
+
 Definition is_none (v : val) : bool := match v with VNone => true | _ => false end.
 
+Definition dict_get (k : val) (items : list (val * val)) : option val :=
+  match find (fun kv => val_eqb k (fst kv)) items with Some kv => Some (snd kv) | None => None end.
+Definition dict_mem (k : val) (items : list (val * val)) : bool :=
+  match dict_get k items with Some _ => true | None => false end.
+Definition set_mem (k : val) (l : list val) : bool := existsb (val_eqb k) l.
+
+(* ---- "fmt" % x : one conversion %[0][width](X|x|d) with an int argument ------------------- *)
+Local Open Scope N_scope.
+Definition digit_char (upper : bool) (d : N) : N :=
+  if d <? 10 then 48 + d else (if upper then 55 else 87) + d.
+Fixpoint digits_fuel (fuel : nat) (base : N) (upper : bool) (n : N) (acc : list N) : list N :=
+  match fuel with
+  | O => acc
+  | S f => let acc' := digit_char upper (n mod base) :: acc in
+           if n / base =? 0 then acc' else digits_fuel f base upper (n / base) acc'
+  end.
+Definition digits (base : N) (upper : bool) (n : N) : list N :=
+  digits_fuel (S (N.to_nat (N.log2 n))) base upper n [].
+
+Fixpoint split_percent (s : list N) : option (list N * list N) :=
+  match s with
+  | [] => None
+  | c :: s' => if c =? 37 then Some ([], s')
+               else match split_percent s' with Some (p, r) => Some (c :: p, r) | None => None end
+  end.
+Fixpoint read_width (s : list N) (acc : N) : N * list N :=
+  match s with
+  | d :: s' => if (48 <=? d) && (d <=? 57) then read_width s' (acc * 10 + (d - 48)) else (acc, s)
+  | [] => (acc, [])
+  end.
+Local Open Scope Z_scope.
+
+Definition format_percent (fmt : list N) (arg : val) : res val :=
+  match split_percent fmt with
+  | None => Raise OtherError
+  | Some (pre, rest) =>
+      let zr := match rest with 48%N :: t => (true, t) | _ => (false, rest) end in
+      let wr := read_width (snd zr) 0%N in
+      match snd wr with
+      | [] => Raise ValueError                                 (* incomplete format *)
+      | conv :: suffix =>
+          if existsb (N.eqb 37) suffix then Raise OtherError   (* more than one conversion *)
+          else
+            let spec := if (conv =? 88)%N then Some (16%N, true)
+                        else if (conv =? 120)%N then Some (16%N, false)
+                        else if (conv =? 100)%N then Some (10%N, false)
+                        else None in
+            match spec with
+            | None => Raise OtherError                         (* %s, %r, ...: not modelled *)
+            | Some (base, upper) =>
+                match as_int arg with
+                | Some z =>
+                    let sign := if z <? 0 then [45%N] else [] in
+                    let body := digits base upper (Z.to_N (Z.abs z)) in
+                    let pad := (N.to_nat (fst wr) - (List.length sign + List.length body))%nat in
+                    Ok (VStr (pre ++ (if fst zr then sign ++ repeat 48%N pad ++ body
+                                      else repeat 32%N pad ++ sign ++ body) ++ suffix))
+                | None =>
+                    match arg with
+                    | VNone | VBytes _ | VStr _ | VList _ | VSlice _ _ _ => Raise TypeError
+                    | _ => Raise OtherError
+                    end
+                end
+            end
+      end
+  end.
+
+(* ---- operators --------------------------------------------------------------------- *)
 Definition binop_int (op : binop) (x y : Z) : Z :=
   match op with
   | BAdd => x + y
@@ -106,27 +261,75 @@ Definition binop_int (op : binop) (x y : Z) : Z :=
   | BMul => x * y
   | BBitAnd => Z.land x y
   | BBitOr => Z.lor x y
+  | BMod => x mod y                  (* the sign of the divisor, as in Python; y = 0 is refused below *)
+  end.
+
+(* operands for which Python may define an operator that is not modelled here *)
+Definition rich (v : val) : bool :=
+  match v with
+  | VInt _ | VBool _ | VNone | VSlice _ _ _ => false
+  | _ => true
   end.
 
 Definition eval_bin (op : binop) (a b : val) : res val :=
-  match as_int a, as_int b with
-  | Some x, Some y => Ok (VInt (binop_int op x y))
-  | _, _ => Raise TypeError
+  match op, a, b with
+  | BMod, VStr fmt, _ => format_percent fmt b
+  | BAdd, VStr x, VStr y => Ok (VStr (x ++ y))
+  | BAdd, VBytes x, VBytes y => Ok (VBytes (x ++ y))
+  | _, _, _ =>
+      match as_int a, as_int b with
+      | Some x, Some y =>
+          match op with
+          | BMod => if y =? 0 then Raise OtherError (* ZeroDivisionError *) else Ok (VInt (x mod y))
+          | _ => Ok (VInt (binop_int op x y))
+          end
+      | _, _ => if rich a || rich b then Raise OtherError else Raise TypeError
+      end
+  end.
+
+Definition contains (a b : val) : res val :=
+  match b with
+  | VDict items => if hashable a then Ok (VBool (dict_mem a items))
+                   else match a with VList _ | VDict _ | VSet _ => Raise TypeError | _ => Raise OtherError end
+  | VSet l => if hashable a then Ok (VBool (set_mem a l))
+              else match a with VList _ | VDict _ | VSet _ => Raise TypeError | _ => Raise OtherError end
+  | VList l => if hashable a then Ok (VBool (set_mem a l)) else Raise OtherError
+  | VInt _ | VBool _ | VNone => Raise TypeError               (* argument of type ... is not iterable *)
+  | _ => Raise OtherError                                     (* substring tests etc.: not modelled *)
   end.
 
 Definition eval_cmp (op : cmpop) (a b : val) : res val :=
   match op with
-  | CEq => Ok (VBool (val_eqb a b))
-  | CNotEq => Ok (VBool (negb (val_eqb a b)))
-  | CIs => match b with VNone => Ok (VBool (is_none a)) | _ => Raise OtherError end
-  | CIsNot => match b with VNone => Ok (VBool (negb (is_none a))) | _ => Raise OtherError end
+  | CEq => if comparable a && comparable b then Ok (VBool (val_eqb a b)) else Raise OtherError
+  | CNotEq => if comparable a && comparable b then Ok (VBool (negb (val_eqb a b))) else Raise OtherError
+  | CIs =>
+      match b with
+      | VNone => Ok (VBool (is_none a))
+      | _ => match a, b with
+             | VNone, _ => Ok (VBool false)
+             | VObj t i, VObj t' i' => Ok (VBool (String.eqb t t' && N.eqb i i'))
+             | _, _ => Raise OtherError          (* identity of ints, strings ... is not defined by the language *)
+             end
+      end
+  | CIsNot =>
+      match b with
+      | VNone => Ok (VBool (negb (is_none a)))
+      | _ => match a, b with
+             | VNone, _ => Ok (VBool true)
+             | VObj t i, VObj t' i' => Ok (VBool (negb (String.eqb t t' && N.eqb i i')))
+             | _, _ => Raise OtherError
+             end
+      end
+  | CIn => contains a b
+  | CNotIn => match contains a b with Ok v => Ok (VBool (negb (truthy v))) | Raise e => Raise e end
   | _ =>
       match as_int a, as_int b with
       | Some x, Some y =>
           Ok (VBool (match op with
                      | CLt => x <? y | CLtE => x <=? y | CGt => x >? y | _ => x >=? y
                      end))
-      | _, _ => Raise TypeError                (* '<' not supported between ... *)
+      | _, _ => if rich a || rich b then Raise OtherError   (* bytes < bytes etc.: not modelled *)
+                else Raise TypeError                         (* '<' not supported between ... *)
       end
   end.
 
@@ -144,39 +347,129 @@ Definition bound_of (v : val) : res (option Z) :=
   | _ => match as_int v with Some z => Ok (Some z) | None => Raise TypeError end
   end.
 
+(* iteration: the outcomes of the successive elements.  Lists and bytes (ints) only; a
+   generator is consumed as it is; str / dict / set iteration is not modelled *)
+Definition iter_items (v : val) : res (list (res val)) :=
+  match v with
+  | VGen l => Ok l
+  | VList l => Ok (map Ok l)
+  | VBytes l => Ok (map (fun b => Ok (VInt (Z.of_N b))) l)
+  | VInt _ | VBool _ | VNone | VSlice _ _ _ => Raise TypeError      (* object is not iterable *)
+  | _ => Raise OtherError
+  end.
+
+(* all(...) / any(...): consume until the answer is known; an element that raises, raises *)
+Fixpoint all_items (l : list (res val)) : res val :=
+  match l with
+  | [] => Ok (VBool true)
+  | Ok v :: l' => if truthy v then all_items l' else Ok (VBool false)
+  | Raise e :: _ => Raise e
+  end.
+Fixpoint any_items (l : list (res val)) : res val :=
+  match l with
+  | [] => Ok (VBool false)
+  | Ok v :: l' => if truthy v then Ok (VBool true) else any_items l'
+  | Raise e :: _ => Raise e
+  end.
+
+(* consume completely: the first element that raises, raises *)
+Fixpoint sequence (l : list (res val)) : res (list val) :=
+  match l with
+  | [] => Ok []
+  | Ok v :: l' => match sequence l' with Ok vs => Ok (v :: vs) | Raise e => Raise e end
+  | Raise e :: _ => Raise e
+  end.
+
+Definition intercalate (sep : list N) (ps : list (list N)) : list N :=
+  match ps with
+  | [] => []
+  | p :: ps' => p ++ flat_map (fun q => sep ++ q) ps'
+  end.
+
+(* the pieces of sep.join(items): every item must be of the separator's type *)
+Fixpoint pieces (is_str : bool) (l : list val) : option (list (list N)) :=
+  match l with
+  | [] => Some []
+  | v :: l' =>
+      match (match v, is_str with VStr s, true => Some s | VBytes s, false => Some s | _, _ => None end) with
+      | None => None
+      | Some p => match pieces is_str l' with Some ps => Some (p :: ps) | None => None end
+      end
+  end.
+
+Definition join (is_str : bool) (sep : list N) (arg : val) : res val :=
+  match iter_items arg with
+  | Raise e => Raise e
+  | Ok items =>
+      match sequence items with
+      | Raise e => Raise e
+      | Ok vs =>
+          match pieces is_str vs with
+          | None => Raise TypeError                      (* sequence item i: expected ... instance *)
+          | Some ps => Ok (if is_str then VStr (intercalate sep ps) else VBytes (intercalate sep ps))
+          end
+      end
+  end.
+
 Definition call1 (f : string) (a : val) : res val :=
   if String.eqb f "len" then
-    match a with VBytes l => Ok (VInt (Z.of_nat (List.length l))) | _ => Raise TypeError end
+    match a with
+    | VBytes l | VStr l => Ok (VInt (Z.of_nat (List.length l)))
+    | VList l | VSet l => Ok (VInt (Z.of_nat (List.length l)))
+    | VDict l => Ok (VInt (Z.of_nat (List.length l)))
+    | VInt _ | VBool _ | VNone | VSlice _ _ _ | VGen _ => Raise TypeError
+    | _ => Raise OtherError
+    end
   else if String.eqb f "ord" then
-    match a with VBytes [b] => Ok (VInt (Z.of_N b)) | _ => Raise TypeError end
+    match a with
+    | VBytes [b] | VStr [b] => Ok (VInt (Z.of_N b))
+    | _ => Raise TypeError
+    end
   else if String.eqb f "abs" then
-    match as_int a with Some z => Ok (VInt (Z.abs z)) | None => Raise TypeError end
+    match as_int a with Some z => Ok (VInt (Z.abs z)) | None => if rich a then Raise OtherError else Raise TypeError end
   else if String.eqb f "bool" then Ok (VBool (truthy a))
   else if String.eqb f "int" then
-    match as_int a with Some z => Ok (VInt z) | None => Raise TypeError end
+    match as_int a with Some z => Ok (VInt z) | None => if rich a then Raise OtherError else Raise TypeError end
+  else if String.eqb f "all" then
+    match iter_items a with Ok l => all_items l | Raise e => Raise e end
+  else if String.eqb f "any" then
+    match iter_items a with Ok l => any_items l | Raise e => Raise e end
   else Raise OtherError.
 
 Definition call2 (f : string) (a b : val) : res val :=
   if String.eqb f "max" then
     match as_int a, as_int b with
     | Some x, Some y => Ok (if y >? x then b else a)      (* max returns the first of equal arguments *)
-    | _, _ => Raise TypeError
+    | _, _ => if rich a || rich b then Raise OtherError else Raise TypeError
     end
   else if String.eqb f "min" then
     match as_int a, as_int b with
     | Some x, Some y => Ok (if y <? x then b else a)
-    | _, _ => Raise TypeError
+    | _, _ => if rich a || rich b then Raise OtherError else Raise TypeError
     end
   else if String.eqb f "slice" then Ok (VSlice a b VNone)      (* slice(a, b) = slice(a, b, None) *)
   else Raise OtherError.
 
-(* isinstance(x, int) / isinstance(x, slice): the class is a NAME in the source, passed
-   on by the translator as the function name "isinstance_int" / "isinstance_slice" *)
+Definition call3 (f : string) (a b c : val) : res val :=
+  if String.eqb f "slice" then Ok (VSlice a b c) else Raise OtherError.
+
+Definition builtin (f : string) (args : list val) : res val :=
+  match args with
+  | [a] => call1 f a
+  | [a; b] => call2 f a b
+  | [a; b; c] => call3 f a b c
+  | _ => Raise OtherError
+  end.
+
+(* isinstance(x, int) / isinstance(x, slice) / ...: the class is a NAME in the source *)
 Definition isinstance (cls : string) (a : val) : res val :=
   if String.eqb cls "int" then Ok (VBool (match a with VInt _ | VBool _ => true | _ => false end))
   else if String.eqb cls "slice" then Ok (VBool (match a with VSlice _ _ _ => true | _ => false end))
   else if String.eqb cls "bytes" then Ok (VBool (match a with VBytes _ => true | _ => false end))
+  else if String.eqb cls "str" then Ok (VBool (match a with VStr _ => true | _ => false end))
   else Raise OtherError.
+
+Definition mem_string (x : string) (l : list string) : bool := existsb (String.eqb x) l.
 
 Definition get_attr (a : val) (name : string) : res val :=
   match a with
@@ -185,46 +478,125 @@ Definition get_attr (a : val) (name : string) : res val :=
       else if String.eqb name "stop" then Ok e
       else if String.eqb name "step" then Ok st
       else Raise OtherError
-  | _ => Raise OtherError                     (* AttributeError *)
+  | VEnumClass cls members =>
+      if mem_string name members then Ok (VEnum cls name) else Raise OtherError
+  | _ => Raise OtherError                     (* AttributeError, or not modelled *)
+  end.
+
+Definition index (a i : val) : res val :=
+  match a with
+  | VDict items =>
+      if hashable i then match dict_get i items with Some v => Ok v | None => Raise KeyError end
+      else match i with VList _ | VDict _ | VSet _ => Raise TypeError | _ => Raise OtherError end
+  | VBytes l =>
+      match as_int i with
+      | Some z => let n := Z.of_nat (List.length l) in
+                  let k := if z <? 0 then z + n else z in
+                  if (k <? 0) || (k >=? n) then Raise IndexError
+                  else match nth_error l (Z.to_nat k) with Some b => Ok (VInt (Z.of_N b)) | None => Raise IndexError end
+      | None => Raise OtherError
+      end
+  | VList l =>
+      match as_int i with
+      | Some z => let n := Z.of_nat (List.length l) in
+                  let k := if z <? 0 then z + n else z in
+                  if (k <? 0) || (k >=? n) then Raise IndexError
+                  else match nth_error l (Z.to_nat k) with Some v => Ok v | None => Raise IndexError end
+      | None => Raise OtherError
+      end
+  | VInt _ | VBool _ | VNone => Raise TypeError            (* object is not subscriptable *)
+  | _ => Raise OtherError
+  end.
+
+(* method calls: join is language-level behaviour of bytes / str; the rest is the context's *)
+Definition method1 (c : ctx) (obj : val) (name : string) (arg : val) : res val :=
+  match obj with
+  | VBytes sep => if String.eqb name "join" then join false sep arg else c_method c obj name arg
+  | VStr sep => if String.eqb name "join" then join true sep arg else c_method c obj name arg
+  | _ => c_method c obj name arg
   end.
 
 (* ---- expressions ----------------------------------------------------------------- *)
 Definition rbind {A B} (r : res A) (k : A -> res B) : res B :=
   match r with Ok a => k a | Raise e => Raise e end.
 
-Fixpoint eval (r : env) (e : expr) : res val :=
+(* f(args) with f a NAME: Python looks it up among the locals, then the module's globals,
+   then the builtins.  Calling a local or a global that is not a function of [c_funs] is
+   outside the subset. *)
+Definition apply_fun (c : ctx) (r : env) (f : string) (args : list val) : res val :=
+  match lookup f r with
+  | Some _ => Raise OtherError
+  | None =>
+      match lookup_fun f (c_funs c) with
+      | Some g => g args
+      | None =>
+          match lookup f (c_globals c) with
+          | Some _ => Raise OtherError
+          | None => builtin f args
+          end
+      end
+  end.
+
+Definition shadowed (c : ctx) (r : env) (f : string) : bool :=
+  match lookup f r, lookup_fun f (c_funs c), lookup f (c_globals c) with
+  | None, None, None => false
+  | _, _, _ => true
+  end.
+
+Fixpoint eval (c : ctx) (r : env) (e : expr) {struct e} : res val :=
   match e with
-  | EVar x => match lookup x r with Some v => Ok v | None => Raise OtherError end   (* NameError *)
+  | EVar x =>
+      match lookup x r with
+      | Some v => Ok v
+      | None => match lookup x (c_globals c) with Some v => Ok v | None => Raise OtherError end   (* NameError *)
+      end
   | EInt z => Ok (VInt z)
   | EBoolC b => Ok (VBool b)
   | ENoneC => Ok VNone
-  | EBin op a b => rbind (eval r a) (fun va => rbind (eval r b) (fun vb => eval_bin op va vb))
-  | ENeg a => rbind (eval r a) (fun va => match as_int va with Some z => Ok (VInt (- z)) | None => Raise TypeError end)
-  | ENot a => rbind (eval r a) (fun va => Ok (VBool (negb (truthy va))))
-  | ECmp op a b => rbind (eval r a) (fun va => rbind (eval r b) (fun vb => eval_cmp op va vb))
-  | EAnd a b => rbind (eval r a) (fun va => if truthy va then eval r b else Ok va)
-  | EOr a b => rbind (eval r a) (fun va => if truthy va then Ok va else eval r b)
-  | EAttr a name => rbind (eval r a) (fun va => get_attr va name)
-  | ECall1 f a => rbind (eval r a) (fun va => call1 f va)
+  | EStr l => Ok (VStr l)
+  | EBytes l => Ok (VBytes l)
+  | EBin op a b => rbind (eval c r a) (fun va => rbind (eval c r b) (fun vb => eval_bin op va vb))
+  | ENeg a => rbind (eval c r a) (fun va => match as_int va with Some z => Ok (VInt (- z))
+                                                           | None => if rich va then Raise OtherError else Raise TypeError end)
+  | ENot a => rbind (eval c r a) (fun va => Ok (VBool (negb (truthy va))))
+  | ECmp op a b => rbind (eval c r a) (fun va => rbind (eval c r b) (fun vb => eval_cmp op va vb))
+  | EAnd a b => rbind (eval c r a) (fun va => if truthy va then eval c r b else Ok va)
+  | EOr a b => rbind (eval c r a) (fun va => if truthy va then Ok va else eval c r b)
+  | EAttr a name => rbind (eval c r a) (fun va => get_attr va name)
+  | ECall1 f a => rbind (eval c r a) (fun va => apply_fun c r f [va])
   | ECall2 f a b =>
       if String.eqb f "isinstance" then
         match b with
-        | EVar cls => rbind (eval r a) (fun va => isinstance cls va)
+        | EVar cls => if shadowed c r f || shadowed c r cls then Raise OtherError
+                      else rbind (eval c r a) (fun va => isinstance cls va)
         | _ => Raise OtherError
         end
-      else rbind (eval r a) (fun va => rbind (eval r b) (fun vb => call2 f va vb))
-  | ECall3 f a b c =>
-      if String.eqb f "slice" then
-        rbind (eval r a) (fun va => rbind (eval r b) (fun vb => rbind (eval r c) (fun vc => Ok (VSlice va vb vc))))
-      else Raise OtherError
+      else rbind (eval c r a) (fun va => rbind (eval c r b) (fun vb => apply_fun c r f [va; vb]))
+  | ECall3 f a b d =>
+      rbind (eval c r a) (fun va => rbind (eval c r b) (fun vb => rbind (eval c r d) (fun vd =>
+        apply_fun c r f [va; vb; vd])))
   | ESub a lo hi =>
-      rbind (eval r a) (fun va =>
-      rbind (match lo with None => Ok None | Some x => rbind (eval r x) bound_of end) (fun l =>
-      rbind (match hi with None => Ok None | Some x => rbind (eval r x) bound_of end) (fun h =>
+      rbind (eval c r a) (fun va =>
+      rbind (match lo with None => Ok None | Some x => rbind (eval c r x) bound_of end) (fun l =>
+      rbind (match hi with None => Ok None | Some x => rbind (eval c r x) bound_of end) (fun h =>
       match va with
       | VBytes bs => Ok (VBytes (slice_list bs l h))
-      | _ => Raise TypeError
+      | VInt _ | VBool _ | VNone => Raise TypeError
+      | _ => Raise OtherError
       end)))
+  | EIndex a i => rbind (eval c r a) (fun va => rbind (eval c r i) (fun vi => index va vi))
+  | EMeth1 a name arg => rbind (eval c r a) (fun va => rbind (eval c r arg) (fun vb => method1 c va name vb))
+  | EGenExp elt x it =>
+      (* the iterable is evaluated at once, the elements when consumed; the subset has no
+         side effects and the translator allows a generator expression only as the argument
+         of the call that consumes it, so the element outcomes can be listed here.
+         The loop variable is local to the generator expression. *)
+      rbind (eval c r it) (fun vi =>
+      rbind (iter_items vi) (fun items =>
+      Ok (VGen (map (fun item => match item with
+                                 | Ok v => eval c (bind_var x v r) elt
+                                 | Raise ex => Raise ex
+                                 end) items))))
   end.
 
 (* ---- statements ------------------------------------------------------------------ *)
@@ -233,48 +605,111 @@ Inductive outcome :=
 | Returned (v : val)
 | Raised (e : exn).
 
-Fixpoint exec (s : stmt) (r : env) : outcome :=
+(* `except h` catches e: the class itself, and UnicodeDecodeError <: ValueError.  An unknown
+   exception (OtherError) is never caught: it stays an error outcome. *)
+Definition catches (h e : exn) : bool :=
+  match e with
+  | OtherError => false
+  | _ => exn_eqb h e || (exn_eqb h ValueError && exn_eqb e UnicodeDecodeError)
+  end.
+
+Fixpoint exec (c : ctx) (s : stmt) (r : env) {struct s} : outcome :=
+  let block :=
+    fix block (l : list stmt) (r : env) {struct l} : outcome :=
+      match l with
+      | [] => Next r
+      | s' :: l' => match exec c s' r with Next r' => block l' r' | o => o end
+      end in
   match s with
-  | SAssign x e => match eval r e with Ok v => Next (bind_var x v r) | Raise ex => Raised ex end
+  | SAssign x e => match eval c r e with Ok v => Next (bind_var x v r) | Raise ex => Raised ex end
   | SAugAssign x op e =>
       match lookup x r with
       | None => Raised OtherError
       | Some old =>
-          match eval r e with
+          match eval c r e with
           | Ok v => match eval_bin op old v with Ok w => Next (bind_var x w r) | Raise ex => Raised ex end
           | Raise ex => Raised ex
           end
       end
-  | SIf c th el =>
-      match eval r c with
+  | SIf cnd th el =>
+      match eval c r cnd with
       | Raise ex => Raised ex
-      | Ok v =>
-          (fix block (l : list stmt) (r : env) : outcome :=
-             match l with
-             | [] => Next r
-             | s' :: l' => match exec s' r with Next r' => block l' r' | o => o end
-             end) (if truthy v then th else el) r
+      | Ok v => block (if truthy v then th else el) r
       end
-  | SReturn e => match eval r e with Ok v => Returned v | Raise ex => Raised ex end
+  | SReturn e => match eval c r e with Ok v => Returned v | Raise ex => Raised ex end
   | SRaise ex => Raised ex
   | SPass => Next r
+  | SExpr e => match eval c r e with Ok _ => Next r | Raise ex => Raised ex end
+  | SAssert cnd =>
+      match eval c r cnd with
+      | Raise ex => Raised ex
+      | Ok v => if truthy v then Next r else Raised AssertionError        (* python without -O *)
+      end
+  | STry body ex handler orelse =>
+      (* a body of ONE statement: nothing can have been assigned when it raises *)
+      match body with
+      | [b] =>
+          match exec c b r with
+          | Next r' => block orelse r'
+          | Returned v => Returned v
+          | Raised e => if catches ex e then block handler r else Raised e
+          end
+      | _ => Raised OtherError
+      end
   end.
 
-Fixpoint exec_block (l : list stmt) (r : env) : outcome :=
+Fixpoint exec_block (c : ctx) (l : list stmt) (r : env) : outcome :=
   match l with
   | [] => Next r
-  | s :: l' => match exec s r with Next r' => exec_block l' r' | o => o end
+  | s :: l' => match exec c s r with Next r' => exec_block c l' r' | o => o end
   end.
 
-(* call a function: falling off the end returns None *)
-Definition call (f : fundef) (args : list val) : res val :=
-  if Nat.eqb (List.length args) (List.length (f_params f)) then
-    match exec_block (f_body f) (List.combine (f_params f) args) with
-    | Next _ => Ok VNone
-    | Returned v => Ok v
-    | Raised e => Raise e
+(* names assigned somewhere in a function body: Python makes them local to the WHOLE
+   function (reading one before its assignment is an error, not a global lookup) *)
+Fixpoint assigned (s : stmt) : list string :=
+  let block := fix block (l : list stmt) : list string :=
+                 match l with [] => [] | s' :: l' => assigned s' ++ block l' end in
+  match s with
+  | SAssign x _ | SAugAssign x _ _ => [x]
+  | SIf _ th el => block th ++ block el
+  | STry b _ h o => block b ++ block h ++ block o
+  | _ => []
+  end.
+Definition assigned_block (l : list stmt) : list string := flat_map assigned l.
+
+(* call a function: positional arguments, missing ones from the defaults of the last
+   parameters (evaluated in the module's scope); falling off the end returns None *)
+Fixpoint count {X} (l : list X) : nat := match l with [] => O | _ :: l' => S (count l') end.
+
+Definition call_in (c : ctx) (f : fundef) (args : list val) : res val :=
+  let np := count (f_params f) in
+  let na := count args in
+  let nd := count (f_defaults f) in
+  if ((na <=? np) && (np - nd <=? na))%nat then
+    let locals := f_params f ++ assigned_block (f_body f) in
+    let c' := mkCtx (filter (fun kv => negb (mem_string (fst kv) locals)) (c_globals c))
+                    (filter (fun kv => negb (mem_string (fst kv) locals)) (c_funs c))
+                    (c_method c) in
+    match (fix evals (l : list expr) : res (list val) :=
+             match l with
+             | [] => Ok []
+             | e :: l' => match eval c [] e with
+                          | Ok v => match evals l' with Ok vs => Ok (v :: vs) | Raise ex => Raise ex end
+                          | Raise ex => Raise ex
+                          end
+             end) (skipn (nd - (np - na)) (f_defaults f)) with
+    | Raise ex => Raise ex
+    | Ok dvs =>
+        match exec_block c' (f_body f) (List.combine (f_params f) (args ++ dvs)) with
+        | Next _ => Ok VNone
+        | Returned v => Ok v
+        | Raised e => Raise e
+        end
     end
   else Raise TypeError.
+
+(* functions that use nothing of their module *)
+Definition call (f : fundef) (args : list val) : res val := call_in empty_ctx f args.
 
 Definition res_val_eqb (a b : res val) : bool :=
   match a, b with
